@@ -1219,8 +1219,7 @@ ecdsa_sign(ec_curve_p curve, bn_p hash, bn_p priv_key, bn_p rnd,
 		return (-1);
 	/* HASH reduce (e). */
 	BN_RET_ON_ERR(bn_assign(&R.y, hash));
-	BN_RET_ON_ERR(bn_mod_reduce(&R.y, &curve->n,
-	    &curve->n_mod_rd_data));
+	BN_RET_ON_ERR(bn_mod(&R.y, &curve->n, &curve->n_mod_rd_data));
 
 	/* Store result. (Possible sign_r == hash so do it here). */
 	BN_RET_ON_ERR(bn_assign(sign_r, &R.x));
@@ -1384,7 +1383,7 @@ ecdsa_verify(ec_curve_p curve, bn_p hash, bn_p sign_r, bn_p sign_s,
 	BN_RET_ON_ERR(ec_point_init(&R, curve->m));
 	/* Hash too long? - reduce. */
 	BN_RET_ON_ERR(bn_assign(&u1, hash));
-	BN_RET_ON_ERR(bn_mod_reduce(&u1, &curve->n, &curve->n_mod_rd_data));
+	BN_RET_ON_ERR(bn_mod(&u1, &curve->n, &curve->n_mod_rd_data));
 
 	/* ECDSA: u1 = (hash * s^−1) mod n, u2 = (r * s^−1) mod n */
 	/* GOST: u1 = (hash^−1 * s) mod n, u2 = -(hash^−1 * r) mod n */
@@ -1558,8 +1557,7 @@ ecdsa_verify_priv_key(ec_curve_p curve, bn_p hash, bn_p sign_r, bn_p sign_s,
 	BN_RET_ON_ERR(ec_point_init(&R, curve->m));
 	/* Hash too long? - reduce. */
 	BN_RET_ON_ERR(bn_assign(&u1, hash));
-	BN_RET_ON_ERR(bn_mod_reduce(&u1, &curve->n,
-	    &curve->n_mod_rd_data));
+	BN_RET_ON_ERR(bn_mod(&u1, &curve->n, &curve->n_mod_rd_data));
 
 	/* ECDSA: u1 = (hash * s^−1) mod n, u2 = (r * s^−1) mod n */
 	/* GOST: u1 = (hash^−1 * s) mod n, u2 = -(hash^−1 * r) mod n */
